@@ -1,13 +1,13 @@
-import Proofs.Lemmas.HeapBasic
+import Proofs.Lemmas.HeapPath
 /-!
-C06 helper lemmas, part 2: the invariant `NoUnintendedSharing` and what an in-place
-mutation of an array object does to a state that satisfies it.
+C06 helper lemmas: the invariant `NoSharing` and what an in-place mutation of an array
+object does to a state that satisfies it.
 
-A *holder* is a place that owns an array object directly: a variable cell or an object
-property.  The invariant says: no two holders point at the same array object, no
-holder's array object also occurs inside some (other or the same) value, and the
-allocator is ahead of every identity in use.  Array objects *inside* values may be
-shared freely — they are never written by a statement that writes at a root.
+A *holder* is a place that owns a value directly: a variable cell or an object property.
+The invariant says: every array identity occurs **at most once in the whole state** — no two
+holders, and no two places inside one value, reach the same array object (every copy point
+copies recursively) — and the allocator is ahead of every identity in use.  An in-place
+mutation of an array object therefore changes one holder only (`updArr_eq_setHolder`).
 -/
 namespace Proofs.Heap
 open Model.Heap
@@ -25,19 +25,86 @@ def setHolder (s : St) : Pos → Val → St
   | .v c, w => { s with vcells := s.vcells.set c w }
   | .p h p, w => s.setProp h p w
 
-/-- array identity `i` occurs strictly inside the value of some holder -/
-def InnerOf (s : St) (i : Nat) : Prop := ∃ Q w, holder? s Q = some w ∧ i ∈ innerAids w
+/-! ### occurrences of an identity in a state -/
 
-/-- **NoUnintendedSharing** -/
+def cntVs (a : Nat) (l : List Val) : Nat := wsum (vcnt a) l
+def cntOs (a : Nat) (os : List (List Val)) : Nat := wsum (cntVs a) os
+/-- number of occurrences of array object `a` in the state -/
+def scnt (s : St) (a : Nat) : Nat := cntVs a s.vcells + cntOs a s.objs
+
+/-- **NoSharing** -/
 structure Inv (s : St) : Prop where
   wf : ∀ (x c : Nat), s.names[x]? = some c → c < s.vcells.length
-  uniq : ∀ P Q a k1 k2, holder? s P = some (.arr a k1) → holder? s Q = some (.arr a k2) → P = Q
-  sep : ∀ P a k, holder? s P = some (.arr a k) → ¬ InnerOf s a
-  bound : ∀ P w, holder? s P = some w → ∀ i ∈ w.aids, i < s.next
+  uniq : ∀ a, scnt s a ≤ 1
+  bound : ∀ a, 0 < scnt s a → a < s.next
 
-theorem InnerOf.lt {s : St} (h : Inv s) {i : Nat} (hi : InnerOf s i) : i < s.next := by
-  obtain ⟨Q, w, hw, hm⟩ := hi
-  exact h.bound Q w hw i (innerAids_sub w i hm)
+theorem scnt_next (s : St) (n a : Nat) : scnt { s with next := n } a = scnt s a := rfl
+
+theorem scnt_holder_le (s : St) (P : Pos) (w : Val) (a : Nat) (h : holder? s P = some w) :
+    vcnt a w ≤ scnt s a := by
+  cases P with
+  | v c =>
+    have := wsum_ge_get (vcnt a) s.vcells c w h
+    simp only [scnt, cntVs]; omega
+  | p hh p =>
+    simp only [holder?, St.propVal?] at h
+    cases hps : s.objs[hh]? with
+    | none => simp [hps] at h
+    | some ps =>
+      simp only [hps] at h
+      have h1 := wsum_ge_get (vcnt a) ps p w h
+      have h2 := wsum_ge_get (cntVs a) s.objs hh ps hps
+      simp only [scnt, cntOs, cntVs] at *; omega
+
+/-- two different holders account for different occurrences -/
+theorem scnt_two (s : St) (P Q : Pos) (w w' : Val) (a : Nat) (hne : P ≠ Q)
+    (hP : holder? s P = some w) (hQ : holder? s Q = some w') : vcnt a w + vcnt a w' ≤ scnt s a := by
+  cases P with
+  | v c =>
+    cases Q with
+    | v c' =>
+      have hcc : c ≠ c' := fun e => hne (by rw [e])
+      have := wsum_two (vcnt a) s.vcells c c' w w' hcc hP hQ
+      simp only [scnt, cntVs]; omega
+    | p h' p' =>
+      have h1 := wsum_ge_get (vcnt a) s.vcells c w hP
+      simp only [holder?, St.propVal?] at hQ
+      cases hps : s.objs[h']? with
+      | none => simp [hps] at hQ
+      | some ps =>
+        simp only [hps] at hQ
+        have h2 := wsum_ge_get (vcnt a) ps p' w' hQ
+        have h3 := wsum_ge_get (cntVs a) s.objs h' ps hps
+        simp only [scnt, cntOs, cntVs] at *; omega
+  | p h p =>
+    simp only [holder?, St.propVal?] at hP
+    cases hps : s.objs[h]? with
+    | none => simp [hps] at hP
+    | some ps =>
+      simp only [hps] at hP
+      cases Q with
+      | v c' =>
+        have h1 := wsum_ge_get (vcnt a) s.vcells c' w' hQ
+        have h2 := wsum_ge_get (vcnt a) ps p w hP
+        have h3 := wsum_ge_get (cntVs a) s.objs h ps hps
+        simp only [scnt, cntOs, cntVs] at *; omega
+      | p h' p' =>
+        simp only [holder?, St.propVal?] at hQ
+        cases hps' : s.objs[h']? with
+        | none => simp [hps'] at hQ
+        | some ps' =>
+          simp only [hps'] at hQ
+          by_cases hh : h = h'
+          · subst hh
+            rw [hps] at hps'; injection hps' with hps'; subst hps'
+            have hpp : p ≠ p' := fun e => hne (by rw [e])
+            have h2 := wsum_two (vcnt a) ps p p' w w' hpp hP hQ
+            have h3 := wsum_ge_get (cntVs a) s.objs h ps hps
+            simp only [scnt, cntOs, cntVs] at *; omega
+          · have h1 := wsum_ge_get (vcnt a) ps p w hP
+            have h2 := wsum_ge_get (vcnt a) ps' p' w' hQ
+            have h3 := wsum_two (cntVs a) s.objs h h' ps ps' hh hps hps'
+            simp only [scnt, cntOs, cntVs] at *; omega
 
 /-! ### holders after an update -/
 
@@ -93,21 +160,22 @@ theorem holder?_setHolder (s : St) (P Q : Pos) (w old : Val) (hold : holder? s P
 theorem holder?_next (s : St) (n : Nat) (P : Pos) : holder? { s with next := n } P = holder? s P := by
   cases P <;> rfl
 
-/-! ### `updArr` on a value that does not contain the object is the identity -/
-
-mutual
-theorem Val.updArr_notin (a : Nat) (f : List Slot → List Slot) : (v : Val) → a ∉ v.aids → v.updArr a f = v
-  | .sc s, _ => by simp [Val.updArr]
-  | .arr b kids, h => by
-      simp [Val.aids] at h
-      have hb : ¬ b = a := fun e => h.1 e.symm
-      simp [Val.updArr, hb, updArrL_notin a f kids h.2]
-theorem updArrL_notin (a : Nat) (f : List Slot → List Slot) : (l : List Slot) → a ∉ aidsL l → updArrL a f l = l
-  | [], _ => by simp [updArrL]
-  | (c, k, v) :: r, h => by
-      simp [aidsL] at h
-      simp [updArrL, Val.updArr_notin a f v h.1, updArrL_notin a f r h.2]
-end
+/-- overwriting a holder moves the counts accordingly -/
+theorem scnt_setHolder (s : St) (P : Pos) (old nv : Val) (a : Nat) (hold : holder? s P = some old) :
+    scnt (setHolder s P nv) a + vcnt a old = scnt s a + vcnt a nv := by
+  cases P with
+  | v c =>
+    have := wsum_set (vcnt a) s.vcells c old nv hold
+    simp only [scnt, setHolder, cntVs]; omega
+  | p h p =>
+    simp only [holder?, St.propVal?] at hold
+    cases hps : s.objs[h]? with
+    | none => simp [hps] at hold
+    | some ps =>
+      simp only [hps] at hold
+      have h1 := wsum_set (vcnt a) ps p old nv hold
+      have h2 := wsum_set (cntVs a) s.objs h ps (ps.set p nv) hps
+      simp only [scnt, setHolder, St.setProp, hps, cntOs, cntVs] at *; omega
 
 theorem list_map_eq_set {α : Type} (g : α → α) (l : List α) (i : Nat) (x : α) (hx : l[i]? = some x)
     (hfix : ∀ (j : Nat) y, l[j]? = some y → j ≠ i → g y = y) : l.map g = l.set i (g x) := by
@@ -131,29 +199,20 @@ theorem list_map_eq_self {α : Type} (g : α → α) (l : List α) (hfix : ∀ (
   | none => rfl
   | some y => simp [hfix j y hy]
 
-/-- a holder's own array object occurs nowhere else, so mutating it in place only
-changes that holder -/
-theorem updArr_eq_setHolder {s : St} (hinv : Inv s) (P : Pos) (a : Nat) (kids : List Slot)
-    (hP : holder? s P = some (.arr a kids)) (f : List Slot → List Slot) :
-    s.updArr a f = setHolder s P (.arr a (f kids)) := by
-  -- every other holder is left alone
-  have hfix : ∀ Q w, holder? s Q = some w → Q ≠ P → Val.updArr a f w = w := by
-    intro Q w hw hne
-    apply Val.updArr_notin
-    intro hmem
-    cases w with
-    | sc sc => simp [Val.aids] at hmem
-    | arr b k =>
-      simp only [Val.aids, List.mem_cons] at hmem
-      rcases hmem with e | e
-      · subst e; exact hne (hinv.uniq Q P a k kids hw hP)
-      · exact hinv.sep P a kids hP ⟨Q, _, hw, by simpa [innerAids] using e⟩
-  have hself : Val.updArr a f (.arr a kids) = .arr a (f kids) := by simp [Val.updArr]
+/-- an array object that occurs once in the state, inside the value of holder `P`:
+mutating it in place only changes that holder -/
+theorem updArr_eq_setHolder {s : St} (P : Pos) (a : Nat) (w : Val) (hu : scnt s a ≤ 1)
+    (hP : holder? s P = some w) (hw : 1 ≤ vcnt a w) (f : List Slot → List Slot) :
+    s.updArr a f = setHolder s P (w.updArr a f) := by
+  have hfix : ∀ Q w', holder? s Q = some w' → Q ≠ P → Val.updArr a f w' = w' := by
+    intro Q w' hw' hne
+    apply Val.updArr_cnt0
+    have := scnt_two s Q P w' w a hne hw' hP
+    omega
   cases P with
   | v c =>
     simp only [holder?] at hP
-    have h1 : s.vcells.map (Val.updArr a f) = s.vcells.set c (.arr a (f kids)) := by
-      rw [← hself]
+    have h1 : s.vcells.map (Val.updArr a f) = s.vcells.set c (w.updArr a f) := by
       apply list_map_eq_set _ _ _ _ hP
       intro j y hy hj
       exact hfix (.v j) y hy (fun e => hj (by injection e))
@@ -174,9 +233,8 @@ theorem updArr_eq_setHolder {s : St} (hinv : Inv s) (P : Pos) (a : Nat) (kids : 
         apply list_map_eq_self
         intro j y hy
         exact hfix (.v j) y hy (fun e => by cases e)
-      have h2 : s.objs.map (·.map (Val.updArr a f)) = s.objs.set h (ps.set p (.arr a (f kids))) := by
-        have hx : ps.map (Val.updArr a f) = ps.set p (.arr a (f kids)) := by
-          rw [← hself]
+      have h2 : s.objs.map (·.map (Val.updArr a f)) = s.objs.set h (ps.set p (w.updArr a f)) := by
+        have hx : ps.map (Val.updArr a f) = ps.set p (w.updArr a f) := by
           apply list_map_eq_set _ _ _ _ hP
           intro j y hy hj
           exact hfix (.p h j) y (by simp [holder?, St.propVal?, hps, hy]) (fun e => hj (by injection e))
@@ -202,98 +260,80 @@ theorem setHolder_setHolder (s : St) (P : Pos) (w1 w2 old : Val) (hold : holder?
       have hlt : h < s.objs.length := (List.getElem?_eq_some_iff.mp hps).1
       simp [setHolder, St.setProp, hps, hlt, List.set_set]
 
-/-- Overwriting holder `P` with a value whose root is the old root or fresh (and
-larger than everything inside it), and whose inner identities are inner identities
-of the old state or fresh, keeps the invariant. -/
-theorem Inv.overwrite {s : St} (hinv : Inv s) (P : Pos) (old w : Val) (n : Nat)
+/-- Overwriting holder `P` by a value whose identities are those of the old value plus
+`e`, where `e` counts identities that do not occur in the state (each at most once), keeps
+the invariant. -/
+theorem Inv.replace {s : St} (hinv : Inv s) (P : Pos) (old nv : Val) (n : Nat) (e : Nat → Nat)
     (hold : holder? s P = some old) (hn : s.next ≤ n)
-    (hroot : ∀ a k, w = .arr a k → (∃ k0, old = .arr a k0) ∨ (s.next ≤ a ∧ ∀ i ∈ aidsL k, i < a))
-    (hinner : ∀ i ∈ innerAids w, InnerOf s i ∨ s.next ≤ i)
-    (hbound : ∀ i ∈ w.aids, i < n) :
-    Inv { (setHolder s P w) with next := n } := by
-  have hh : ∀ Q, holder? { (setHolder s P w) with next := n } Q = if Q = P then some w else holder? s Q := by
-    intro Q; rw [holder?_next, holder?_setHolder s P Q w old hold]
-  -- inner identities of the new state
-  have hin : ∀ i, InnerOf { (setHolder s P w) with next := n } i → InnerOf s i ∨ s.next ≤ i := by
-    rintro i ⟨Q, x, hx, hm⟩
-    rw [hh] at hx
-    by_cases hq : Q = P
-    · simp [hq] at hx; subst hx; exact hinner i hm
-    · simp [hq] at hx; exact Or.inl ⟨Q, x, hx, hm⟩
-  -- a root of the new state is an old root or fresh
-  have hrt : ∀ Q a k, holder? { (setHolder s P w) with next := n } Q = some (.arr a k) →
-      (∃ Q' k', holder? s Q' = some (.arr a k')) ∨ s.next ≤ a := by
-    intro Q a k hx
-    rw [hh] at hx
-    by_cases hq : Q = P
-    · simp [hq] at hx
-      rcases hroot a k hx with ⟨k0, e⟩ | ⟨e, _⟩
-      · exact Or.inl ⟨P, k0, by rw [hold, e]⟩
-      · exact Or.inr e
-    · simp [hq] at hx; exact Or.inl ⟨Q, k, hx⟩
-  refine ⟨?_, ?_, ?_, ?_⟩
+    (hc : ∀ i, vcnt i nv ≤ vcnt i old + e i)
+    (he : ∀ i, e i ≤ 1 ∧ (0 < e i → scnt s i = 0 ∧ i < n)) :
+    Inv { (setHolder s P nv) with next := n } := by
+  have key : ∀ i, scnt (setHolder s P nv) i ≤ scnt s i + e i ∧ (scnt s i = 0 → scnt (setHolder s P nv) i ≤ e i) := by
+    intro i
+    have h1 := scnt_setHolder s P old nv i hold
+    have h2 := scnt_holder_le s P old i hold
+    have h3 := hc i
+    constructor <;> omega
+  refine ⟨?_, ?_, ?_⟩
   · intro x c hx
     have := hinv.wf x c (by cases P <;> first | exact hx | (simp only [setHolder, St.setProp] at hx; split at hx <;> exact hx))
     cases P with
     | v c' => simpa [setHolder] using this
     | p h p => simp only [setHolder, St.setProp]; split <;> exact this
-  · intro Q1 Q2 a k1 k2 h1 h2
-    rw [hh] at h1 h2
-    by_cases q1 : Q1 = P <;> by_cases q2 : Q2 = P
-    · rw [q1, q2]
-    · simp [q1] at h1; simp [q2] at h2
-      rcases hroot a k1 h1 with ⟨k0, e⟩ | ⟨e, _⟩
-      · exact (q2 (hinv.uniq Q2 P a k2 k0 h2 (by rw [hold, e]))).elim
-      · have := hinv.bound Q2 _ h2 a (by simp [Val.aids]); omega
-    · simp [q1] at h1; simp [q2] at h2
-      rcases hroot a k2 h2 with ⟨k0, e⟩ | ⟨e, _⟩
-      · exact (q1 (hinv.uniq Q1 P a k1 k0 h1 (by rw [hold, e]))).elim
-      · have := hinv.bound Q1 _ h1 a (by simp [Val.aids]); omega
-    · simp [q1] at h1; simp [q2] at h2; exact hinv.uniq Q1 Q2 a k1 k2 h1 h2
-  · intro Q a k hx hI
-    have hx' := hx
-    rw [hh] at hx'
-    by_cases hq : Q = P
-    · simp [hq] at hx'
-      -- the new value's own root
-      rcases hroot a k hx' with ⟨k0, e⟩ | ⟨e, hlt⟩
-      · -- old root: below next and not inner in the old state
-        have hb : a < s.next := hinv.bound P _ hold a (by rw [e]; simp [Val.aids])
-        rcases hin a hI with h | h
-        · exact hinv.sep P a k0 (by rw [hold, e]) h
-        · omega
-      · -- fresh root: larger than everything old and everything inside the new value
-        obtain ⟨Q', x, hx2, hm⟩ := hI
-        rw [hh] at hx2
-        by_cases hq' : Q' = P
-        · simp [hq'] at hx2; subst hx2; subst hx'
-          simp [innerAids] at hm
-          have := hlt a hm; omega
-        · simp [hq'] at hx2
-          have := hinv.bound Q' x hx2 a (innerAids_sub x a hm); omega
-    · simp [hq] at hx'
-      have hb : a < s.next := hinv.bound Q _ hx' a (by simp [Val.aids])
-      rcases hin a hI with h | h
-      · exact hinv.sep Q a k hx' h
-      · omega
-  · intro Q x hx i hi
-    rw [hh] at hx
-    by_cases hq : Q = P
-    · simp [hq] at hx; subst hx; exact hbound i hi
-    · simp [hq] at hx
-      have := hinv.bound Q x hx i hi
-      show i < n
-      omega
+  · intro i
+    rw [scnt_next]
+    obtain ⟨k1, k2⟩ := key i
+    obtain ⟨e1, e2⟩ := he i
+    have := hinv.uniq i
+    rcases Nat.eq_zero_or_pos (e i) with h0 | hpos
+    · omega
+    · have := (e2 hpos).1; have := k2 this; omega
+  · intro i hi
+    rw [scnt_next] at hi
+    obtain ⟨k1, k2⟩ := key i
+    obtain ⟨e1, e2⟩ := he i
+    show i < n
+    rcases Nat.eq_zero_or_pos (e i) with h0 | hpos
+    · have : 0 < scnt s i := by omega
+      have := hinv.bound i this; omega
+    · exact (e2 hpos).2
 
 theorem Inv.next {s : St} (hinv : Inv s) (n : Nat) (hn : s.next ≤ n) : Inv { s with next := n } := by
-  refine ⟨hinv.wf, ?_, ?_, ?_⟩
-  · intro P Q a k1 k2 h1 h2; rw [holder?_next] at h1 h2; exact hinv.uniq P Q a k1 k2 h1 h2
-  · intro P a k h1 ⟨Q, w, hw, hm⟩; rw [holder?_next] at h1 hw; exact hinv.sep P a k h1 ⟨Q, w, hw, hm⟩
-  · intro P w hw i hi; rw [holder?_next] at hw; have := hinv.bound P w hw i hi; show i < n; omega
+  refine ⟨hinv.wf, hinv.uniq, ?_⟩
+  intro a ha
+  have := hinv.bound a ha
+  show a < n
+  omega
 
-theorem InnerOf_next (s : St) (n : Nat) (i : Nat) : InnerOf { s with next := n } i ↔ InnerOf s i := by
-  constructor
-  · rintro ⟨Q, w, hw, hm⟩; rw [holder?_next] at hw; exact ⟨Q, w, hw, hm⟩
-  · rintro ⟨Q, w, hw, hm⟩; exact ⟨Q, w, by rw [holder?_next]; exact hw, hm⟩
+/-- a new object whose property values carry identities that do not occur in the state,
+each at most once -/
+theorem Inv.appendObj {s : St} (hinv : Inv s) (ps' : List Val) (n' : Nat) (hn : s.next ≤ n')
+    (hfresh : ∀ i, cntVs i ps' ≤ 1 ∧ (0 < cntVs i ps' → scnt s i = 0 ∧ i < n')) :
+    Inv { s with objs := s.objs ++ [ps'], next := n' } := by
+  have hs : ∀ i, scnt { s with objs := s.objs ++ [ps'], next := n' } i = scnt s i + cntVs i ps' := by
+    intro i
+    simp only [scnt, cntOs, wsum_append, wsum]
+    omega
+  refine ⟨hinv.wf, ?_, ?_⟩
+  · intro i
+    rw [hs]
+    obtain ⟨e1, e2⟩ := hfresh i
+    have := hinv.uniq i
+    rcases Nat.eq_zero_or_pos (cntVs i ps') with h0 | hpos
+    · omega
+    · have := (e2 hpos).1; omega
+  · intro i hi
+    rw [hs] at hi
+    obtain ⟨e1, e2⟩ := hfresh i
+    show i < n'
+    rcases Nat.eq_zero_or_pos (cntVs i ps') with h0 | hpos
+    · have := hinv.bound i (by omega); omega
+    · exact (e2 hpos).2
+
+/-- an identity at or beyond the allocator does not occur -/
+theorem Inv.fresh {s : St} (hinv : Inv s) (i : Nat) (h : s.next ≤ i) : scnt s i = 0 := by
+  rcases Nat.eq_zero_or_pos (scnt s i) with h0 | hpos
+  · exact h0
+  · have := hinv.bound i hpos; omega
 
 end Proofs.Heap
